@@ -182,7 +182,7 @@ def summarise(ctx, qn, policy=default_policy, oracle=None, args=None, self_term=
     dyn = None
     if isinstance(qn, str) and '.' in qn and fn.cls is not None and qn.rsplit('.', 1)[0] != fn.cls.name:
         dyn = ctx.M.cls(qn.rsplit('.', 1)[0])          # 'Sub.method' where Sub inherits the method: it runs on a Sub
-    ps = sx.run(fn, args=args, self_term=self_term if self_term is not None else (('var', 'self') if dyn is not None else None), dyn=dyn)
+    ps = sx.run_entry(fn, args=args, self_term=self_term if self_term is not None else (('var', 'self') if dyn is not None else None), dyn=dyn)
     ctx.paths_explored += len(ps)
     return ps
 
